@@ -55,8 +55,36 @@ P = {
  "C20": ("FileConfig.get/__setitem__/__delitem__/get_namespace evaluated abstractly on witness configurations (falsy values, coercion chain, default-only keys, prefix-sharing namespaces); CLI sub-commands; flag>config>default expressions for backend and colour (verbosity: known finding); namespace -> factory -> Ops field -> use site",
          "JSON value round-trip is stdlib behaviour and trusted", "abstract evaluation of pure accessors + structural precedence rules"),
 }
+W = "abstract evaluation (interpreter of a pure Python subset, every external effect a recording hook) of the deciding function over a finite branch-covering witness table"
+ADD = {
+ "C01": ("; should_run evaluated over 28 witness rows (ties, orders, missing/no outputs, spec changed); the use_spec_hashes switch read-back; snapshot per instance, follows symlinks; spec store loads what was saved", W),
+ "C02": ("; filter_names evaluated over 15 pattern sets x list/one-shot iterables; opaque job ids (0 is a valid id); composition with C01 for the 'stale' column", W),
+ "C03": ("; relative results must be anchored (abspath); Graph.from_targets evaluated over 11 witness workflows in several definition orders; non-dict Mappings flatten to their values", W),
+ "C04": ("; witness workflows (self-loop, unreachable 2-cycle, 3-cycle behind a tail, duplicate producers across spellings, missing source) evaluated through Graph.from_targets; stat snapshot per instance and per call", W),
+ "C05": ("; the group callback evaluated for found / not found / prompt declined; name filter over list and one-shot iterables; flag defaults", W),
+ "C07": ("; the pool server's connection handler, the client and enqueue_task evaluated on one session; composition with C02.R2 and C08.R3", W),
+ "C08": ("; Slurm state query evaluated with failing sacct/squeue; factory default accounting on; config switch read-back; store load/close round trip", W),
+ "C09": ("; state-query failures of all three cluster backends propagate; load(file)=table and close-after-submit scenarios evaluated", W),
+ "C10": ("; clean_logs config switch read-back; Slurm log_mode factory default", W),
+ "C11": ("; enqueue_task hands deps on unchanged (no rebinding)", None),
+ "C12": ("; composition with C13.R6: a released core corresponds to a SIGKILLed, reaped process group", None),
+ "C13": ("; SIGKILL to the group on every exit with a process; no use of the process on the no-process path; no bare wait() on undrained PIPEs; RUNNING while the process runs; enqueue registers SUBMITTED", W),
+ "C14": ("; nothing shared between connections is held across a client-paced await; connection handler / client / enqueue evaluated on well-formed, EOF-only, shutdown and unknown-kind sessions", W),
+ "C15": ("; name filter witness table; --all/--force flag defaults", W),
+ "C16": ("; name filter witness table (through the shared cone-selection rule)", W),
+ "C17": ("; the cancel command evaluated over selections x prompt x each failure kind at each position; a refused cancel leaves the job tracked; scancel's exit-0 failure output raises BackendError; server/client cancel_task path", W),
+ "C18": ("; config switch read-back; run inside the store's with-block; store load round trip", W),
+ "C19": ("; find_workflow evaluated over 10 directory-tree rows incl. termination at the root; no read of the invoking directory at import time; the group callback's locations evaluated", W),
+ "C20": ("; cli.main evaluated over the full flag x config x env tables for backend (4) and colour (18), verbosity reaches logging; create_backend evaluated; accounting switch decides sacct also under failure; config file location", W),
+}
 checks = []
 for pid, (text, note, tech) in sorted(P.items()):
+    extra = ADD.get(pid)
+    if extra:
+        text = text + extra[0]
+        if extra[1]:
+            tech = tech + " + " + extra[1]
+            note = note + "; the witness evaluations are exhaustive only over finite domains (flags, enums, container kinds) and otherwise a necessary condition - a differing row is a concrete violating input, agreement is not a proof for all inputs"
     checks.append({
         "property_id": pid,
         "quick_cmd": f"./check {pid} --tier quick",
